@@ -500,3 +500,88 @@ class DecayMegacomplexMatrix(Contract):
                 want = L.sum([L.fn("exp", -r[l] * float(t[ti])) * A[l][c] for l in range(n)])
                 cells.append(L.eq(M[ti][c], want))
         yield "column_of_compartment_is_sum_A_exp_minus_rate_t", L.and_(*cells)
+
+
+class DecayAssociatedData(Contract):
+    """retrieve_decay_associated_data: DAS = SAS·A^T, lifetimes = 1/rates, reported A / K matrices."""
+
+    prop = "C04"
+    name = "DecayAssociatedData"
+    target = "glotaran.builtin.megacomplexes.decay.util:retrieve_decay_associated_data"
+    modules = MODS
+    trusted = TRUSTED_EIG + ("xarray executed for real on object arrays (coordinates concrete)",)
+    strength = "S"
+    agreement_runs = 0
+
+    def cases(self, tier):
+        for kind in ("decay-sequential", "decay-parallel"):
+            for n in (1, 2, 3):
+                yield {"kind": kind, "n": n}
+
+    def build(self, S, case):
+        import xarray as xr
+
+        from glotaran.builtin.megacomplexes.decay.decay_megacomplex import DecayDatasetModel
+        from glotaran.builtin.megacomplexes.decay.decay_parallel_megacomplex import DecayParallelMegacomplex
+        from glotaran.builtin.megacomplexes.decay.decay_sequential_megacomplex import DecaySequentialMegacomplex
+        from glotaran.parameter import Parameter
+
+        n = case["n"]
+        names = comp_names(n)
+        ks = [S.real(f"k_{i}") for i in range(n)]
+        for i in range(n):
+            S.require(L.gt(ks[i], 0), "rate constants positive")
+            for i2 in range(i):
+                S.require(L.not_(L.eq(ks[i], ks[i2])), "distinct rates")
+        rates = [Parameter(label=f"k.{i+1}", value=v) for i, v in enumerate(ks)]
+        cls = DecaySequentialMegacomplex if case["kind"] == "decay-sequential" else DecayParallelMegacomplex
+        mc = cls(label="mc", compartments=names, rates=rates)
+        dm = DecayDatasetModel(label="ds", megacomplex=[mc])
+        ng = 2
+        sas = S.real_array("sas", ng, n)
+        # the dataset lists the species in another order than the megacomplex: selection must be by label
+        order = list(reversed(range(n)))
+        ds = xr.Dataset(
+            {"species_associated_spectra": (("spectral", "species"), np.array(sas, dtype=object if S.symbolic else float)[:, order])},
+            coords={"spectral": [500.0, 600.0], "species": [names[i] for i in order]},
+        )
+        return {"mc": mc, "dm": dm, "ds": ds, "sas": sas, "ks": ks, "n": n, "names": names}
+
+    def stubs_for(self, S, case, inp):
+        if not S.symbolic:
+            return {}
+        st = EigStub(S)
+        return {f"{KM}:eig": st.eig, f"{KM}:solve": st.solve}
+
+    def call(self, S, case, inp):
+        from glotaran.builtin.megacomplexes.decay.util import retrieve_decay_associated_data
+
+        mc, dm, ds = inp["mc"], inp["dm"], inp["ds"]
+        retrieve_decay_associated_data(mc, dm, ds, "spectral", "spectra")
+        A = mc.get_a_matrix(dm)
+        r = mc.get_k_matrix().rates(mc.get_compartments(dm), mc.get_initial_concentration(dm))
+        K = mc.get_k_matrix().full(mc.get_compartments(dm))
+        return {"ds": ds, "A": np.asarray(A, dtype=object if S.symbolic else float), "r": np.asarray(r, dtype=object if S.symbolic else float), "K": np.asarray(K, dtype=object if S.symbolic else float)}
+
+    def observe(self, out):
+        return out if isinstance(out, Raised) else None
+
+    def ensures(self, S, case, inp, out):
+        if isinstance(out, Raised):
+            yield "no_exception", False
+            return
+        ds, A, r, K, n = out["ds"], out["A"], out["r"], out["K"], inp["n"]
+        das = ds["decay_associated_spectra_mc"]
+        yield "das_dims", tuple(das.dims) == ("spectral", "component_mc") and tuple(das.shape) == (2, n)
+        yield "das_is_sas_times_a_matrix_transposed_by_species_label", L.and_(
+            *[L.eq(das.values[g, l], L.sum([inp["sas"][g, c] * A[l][c] for c in range(n)])) for g in range(2) for l in range(n)]
+        )
+        yield "rates_and_lifetimes_reported_per_component", L.and_(
+            *[L.eq(ds.coords["rate_mc"].values[l], r[l]) for l in range(n)], *[L.eq(ds.coords["lifetime_mc"].values[l] * r[l], 1.0) for l in range(n)]
+        )
+        am = ds["a_matrix_mc"]
+        yield "a_matrix_reported_on_component_and_species", tuple(am.dims) == ("component_mc", "species_mc") and [str(x) for x in am.coords["species_mc"].values] == inp["names"] and L.and_(
+            *[L.eq(am.values[l, c], A[l][c]) for l in range(n) for c in range(n)]
+        )
+        km = ds["k_matrix_mc"]
+        yield "k_matrix_reported_is_the_full_k_matrix", L.and_(*[L.eq(km.values[a, b], K[a][b]) for a in range(n) for b in range(n)])
